@@ -22,6 +22,21 @@ Theorem C19_changed_kept : forall t k i q r,
   same_data q r = false -> ~ In r (vacuum_deleted t).
 Proof. exact vacuum_keeps_changed. Qed.
 
+(* consequence for every reader of history: the state of an entity "as of" any transaction id x
+   (its newest version at or below x) is answered by the vacuumed table with a surviving row that
+   agrees in every non-key column (end id, operation type, data, _mod flags) *)
+Theorem C19_as_of_preserved : forall t k x r,
+  pk_unique t -> In r t -> vkey r = k -> vtx r <= x ->
+  (forall q, In q t -> vkey q = k -> vtx q <= x -> vtx q <= vtx r) ->
+  exists r', In r' (vacuum t) /\ vkey r' = k /\ vtx r' <= x /\ same_data r' r = true /\
+     (forall q, In q (vacuum t) -> vkey q = k -> vtx q <= x -> vtx q <= vtx r').
+Proof. exact vacuum_as_of. Qed.
+
+(* the table after vacuum is exactly the rows that were not deleted *)
+Theorem C19_vacuum_is_survivors : forall t r,
+  pk_unique t -> (In r (vacuum t) <-> In r t /\ ~ In r (vacuum_deleted t)).
+Proof. exact vacuum_survivor. Qed.
+
 (* non-vacuity: A, B, A, A for entity 1 (first version an UPDATE) interleaved with entity 2 *)
 Definition C19_ex : vtable :=
   [ mkv [1] 1 None 1 [Some 5] []; mkv [2] 2 None 0 [Some 5] []; mkv [1] 3 None 1 [Some 6] [];
@@ -32,8 +47,15 @@ Example C19_example :
   nth_error (versions C19_ex [1]) 2 = Some (mkv [1] 4 None 1 [Some 5] []) /\
   same_data (mkv [1] 3 None 1 [Some 6] []) (mkv [1] 4 None 1 [Some 5] []) = false.
 Proof. vm_compute. repeat split; reflexivity. Qed.
+(* as of transaction 6 entity 1 is answered by the surviving row of transaction 4 *)
+Example C19_as_of_example :
+  map vid (vacuum C19_ex) = [([1], 1); ([2], 2); ([1], 3); ([1], 4)].
+Proof. vm_compute. reflexivity. Qed.
 
 Print Assumptions C19_only_redundant_rows_deleted.
 Print Assumptions C19_first_kept.
 Print Assumptions C19_changed_kept.
+Print Assumptions C19_as_of_preserved.
+Print Assumptions C19_vacuum_is_survivors.
 Print Assumptions C19_example.
+Print Assumptions C19_as_of_example.
